@@ -16,24 +16,30 @@ fn norm_ws(s: &str) -> String {
 
 /// one diagnostic in token space: code, primary span, message, secondary spans (+ messages), notes modulo whitespace
 pub fn canon(d: &CheckerDiagnostic, dump: &Dumper, rename_back: &dyn Fn(&str) -> String) -> String {
-    let span = |r: (u32, u32)| -> String {
-        match (dump.by_start.get(&(r.0 as usize)), dump.by_end.get(&(r.1 as usize))) {
-            (Some(a), Some(b)) => format!("{a}-{b}"),
-            _ => {
-                // inside a token (bad_string_escape) or at a trivia boundary: token containing the start + offset inside it
-                let mut best = None;
-                for (i, t) in dump.tokens.iter().enumerate() {
-                    if t.0 <= r.0 as usize && (r.0 as usize) < t.1.max(t.0 + 1) {
-                        best = Some((i, r.0 as usize - t.0, r.1 as usize - t.0));
-                    }
-                }
-                match best {
-                    Some((i, a, b)) => format!("in{i}+{a}..{b}"),
-                    None => format!("byte{}..{}", r.0, r.1),
-                }
+    // a position: on a token boundary, inside a token (offset kept), or somewhere in the trivia after a token
+    let pos = |b: usize, is_end: bool| -> String {
+        if is_end {
+            if let Some(i) = dump.by_end.get(&b) {
+                return format!("e{i}");
+            }
+        } else if let Some(i) = dump.by_start.get(&b) {
+            return format!("s{i}");
+        }
+        let mut last_before = None;
+        for (i, t) in dump.tokens.iter().enumerate() {
+            if t.0 < b && b < t.1 {
+                return format!("in{i}+{}", b - t.0);
+            }
+            if t.1 <= b {
+                last_before = Some(i);
             }
         }
+        match last_before {
+            Some(i) => format!("trivia-after{i}"),
+            None => "trivia-before0".to_owned(),
+        }
     };
+    let span = |r: (u32, u32)| -> String { format!("{}..{}", pos(r.0 as usize, false), pos(r.1 as usize, true)) };
     let mut sec: Vec<String> = d
         .diagnostic
         .secondary_labels
@@ -192,13 +198,14 @@ pub fn rename_twin(src: &str, ast: &full_moon::ast::Ast, d: &Dumper, chunk: &Sx,
         let t = &d.tokens[*i];
         script_bound.entry(t.4.clone()).or_insert(true);
     }
-    // an occurrence that is a reference and unresolved (or resolved to a hoisted global) makes the name "not introduced by the script" when it is a library root
+    // a name some occurrence of which is unresolved (an undefined or library global) or denotes a global the
+    // file assigns is not "introduced by the script" in the sense of C14: only purely local spellings are renamed
     for (_, reference) in sm.references.iter() {
         let unresolved = match reference.resolved {
             None => true,
             Some(v) => sm.variables[v].is_global,
         };
-        if unresolved && std.global_has_fields(&reference.name) {
+        if unresolved {
             script_bound.insert(reference.name.clone(), false);
         }
     }
@@ -257,18 +264,53 @@ pub fn rename_twin(src: &str, ast: &full_moon::ast::Ast, d: &Dumper, chunk: &Sx,
 pub fn run(args: &Args, out: &mut Out, kind: &str) {
     let mut rng = Rng::new(args.seed ^ 0x7717);
     let std51 = StandardLibrary::from_name("lua51").unwrap();
-    let checker: Checker<toml::value::Value> = Checker::new(CheckerConfig::default(), std51.clone()).unwrap();
-    let corpus = format!("/verif/corpus/{kind}");
+    // C13 runs under lua51 plus a few deprecated / parameter-deprecated entries and a `global_usage` ignore pattern,
+    // and every program gets a prologue with the shapes whose handling used to look at source text with its trivia
+    let (std51, checker): (StandardLibrary, Checker<toml::value::Value>) = if kind == "c13" {
+        let mut custom: StandardLibrary = serde_yaml::from_str(
+            "globals:\n  oldfn:\n    args:\n      - type: any\n      - type: any\n        required: false\n    deprecated:\n      message: old\n      replace:\n        - newfn(%1)\n  oldvalue:\n    property: read-only\n    deprecated:\n      message: gone\n  depr_param:\n    args:\n      - type: any\n        required: false\n        deprecated:\n          message: no more\n      - type: any\n        required: false\n  lib.oldfield:\n    property: read-only\n    deprecated:\n      message: gone\n",
+        )
+        .unwrap();
+        custom.extend(std51);
+        let mut config: HashMap<String, toml::value::Value> = HashMap::new();
+        let mut t = toml::value::Table::new();
+        t.insert("ignore_pattern".to_owned(), toml::value::Value::String("^allowed".to_owned()));
+        config.insert("global_usage".to_owned(), toml::value::Value::Table(t));
+        let c = Checker::new(CheckerConfig { config, ..CheckerConfig::default() }, custom.clone()).unwrap();
+        (custom, c)
+    } else if kind == "c13r" {
+        let rb = StandardLibrary::roblox_base();
+        let c = Checker::new(CheckerConfig::default(), rb.clone()).unwrap();
+        (rb, c)
+    } else {
+        let c = Checker::new(CheckerConfig::default(), std51.clone()).unwrap();
+        (std51, c)
+    };
+    const PROLOGUE_R: &str = "local function _verif_prologue_r(vx)\n  local c = Color3.new(255, 0, 0)\n  local c2 = Color3.new(1, 0.5, 0)\n  local u = UDim2.new(1, 0, 1, 0)\n  local u2 = UDim2.new(0, 5, 0, 5)\n  local u3 = UDim2.new(1, 2)\n  local u4 = UDim2.new(0.5, 0, 0.5, 0)\n  return c, c2, u, u2, u3, u4, vx\nend\n";
+    const PROLOGUE: &str = "local function _verif_prologue(vx, vy)\n  if type(vx == \"string\") then end\n  local _o = oldvalue\n  print(oldvalue, vx)\n  oldfn(vx, vy)\n  depr_param(nil, vx)\n  depr_param(vx)\n  _G.allowed_name = vx\n  _G.other_name = vy\n  if vx == 0/0 then end\n  return lib.oldfield, oldvalue\nend\n";
+    let corpus = format!("/verif/corpus/{}", if kind == "c13r" { "c13" } else { kind });
     for (origin, src) in programs(args, out, &mut rng, &corpus) {
         if src.contains("selene:") {
             out.bump("skipped_has_filter_comments");
             continue;
         }
+        let src = if kind == "c13" {
+            format!("{PROLOGUE}{src}")
+        } else if kind == "c13r" {
+            format!("{PROLOGUE_R}{src}")
+        } else {
+            src
+        };
         let ast = match full_moon::parse(&src) {
             Ok(a) => a,
             Err(_) => continue,
         };
-        let (chunk, _supported, d) = astdump::dump(&ast);
+        let (chunk, supported, d) = astdump::dump(&ast);
+        if kind == "c14" && !supported {
+            // the renamer needs every variable-position token, i.e. a fully dumped tree
+            out.bump("unsupported_syntax");
+            continue;
+        }
         let base = match run_checker(&checker, &src) {
             Some(b) => b,
             None => {
@@ -276,9 +318,9 @@ pub fn run(args: &Args, out: &mut Out, kind: &str) {
                 continue;
             }
         };
-        let reps = if kind == "c13" { 2 } else { 1 };
+        let reps = if kind == "c13" || kind == "c13r" { 2 } else { 1 };
         for _ in 0..reps {
-            let (twin_src, back) = if kind == "c13" {
+            let (twin_src, back) = if kind == "c13" || kind == "c13r" {
                 (trivia_twin(&src, &d, &mut rng, out), HashMap::new())
             } else {
                 match rename_twin(&src, &ast, &d, &chunk, &std51, &mut rng, out) {
@@ -304,7 +346,7 @@ pub fn run(args: &Args, out: &mut Out, kind: &str) {
             let diags2 = match std::panic::catch_unwind(std::panic::AssertUnwindSafe(|| checker.test_on(&twin_ast))) {
                 Ok(x) => x,
                 Err(_) => {
-                    out.case(&format!("REL.{kind}"), &list(vec![st(&origin), st(&src), st(&twin_src)]), &atom("twin-panicked"));
+                    out.case(&format!("REL.{}", if kind == "c13r" { "c13" } else { kind }), &list(vec![st(&origin), st(&src), st(&twin_src)]), &atom("twin-panicked"));
                     continue;
                 }
             };
@@ -319,12 +361,18 @@ pub fn run(args: &Args, out: &mut Out, kind: &str) {
             };
             let mut v2: Vec<String> = diags2.iter().map(|x| canon(x, &d2, &rename_back)).collect();
             v2.sort();
-            let same_tokens = d.tokens.len() == d2.tokens.len();
+            let same_tokens = d.tokens.len() == d2.tokens.len()
+                && (kind == "c14" || d.tokens.iter().zip(d2.tokens.iter()).all(|(a, b)| a.4 == b.4));
+            if !same_tokens {
+                // the rewrite was not a pure trivia / spelling change (e.g. a line comment swallowed the inserted text): not a twin
+                out.bump("twin_changed_the_token_sequence");
+                continue;
+            }
             if !base.0.is_empty() {
                 out.bump("twin_pairs_with_diagnostics");
             }
             out.case(
-                &format!("REL.{kind}"),
+                &format!("REL.{}", if kind == "c13r" { "c13" } else { kind }),
                 &list(vec![st(&origin), st(&src), st(&twin_src)]),
                 &list(vec![boolean(same_tokens), list(base.0.iter().map(st).collect()), list(v2.iter().map(st).collect())]),
             );
